@@ -23,6 +23,18 @@ CPP = ["#define X 1", "#ifdef X", "#endif", "#include \"defs.h\"", "#undef X", "
 
 
 def build(rnd, tier, flags):
+    r0 = gen.R(rnd)
+    if r0.chance(25):
+        # fixed-form source with the form set explicitly (literals may then end a line in '&' at column 72)
+        units, flat, g = progs.make_program(rnd, list(flags) + ["no_blank_at_col72"], max_units=2)
+        meta = progs.meta_of(flat)
+        std = "f2008" if (meta["f08"] or g.o.f08) else r0.pick(["f2003", "f2008"])
+        fo = layout.FixedOpts(wrap=72, comments=r0.pick([0, 20]), cont_comments=r0.pick([0, 30]), lit_cross=100,
+                              lit_pad=r0.pick([40, 90]), allow_amp_end=True, names=gen.ALL_NAMES,
+                              excl=set(flags) | {"no_blank_at_col72"})
+        lay = layout.fixed_layout(flat, rnd, fo)
+        return {"src": lay.text, "std": std, "mode": r0.pick(["drop", "keep"]), "source_form": "fix", "meta": meta}, \
+            progs.excluded_counts(g, lay)
     case, excl = c10.build(rnd, tier, flags)
     r = gen.R(rnd)
     if r.chance(40):
@@ -42,7 +54,12 @@ def build(rnd, tier, flags):
 
 def evaluate(case):
     labels = ["mode=" + case["mode"]]
-    o = c10._parse(case["src"], case["std"], case["mode"])
+    if case.get("source_form"):
+        labels.append("explicit-" + case["source_form"])
+        o = guarded_parse(case["src"], std=case["std"], ignore_comments=(case["mode"] == "drop"), want_str=True,
+                          source_form=case["source_form"])
+    else:
+        o = c10._parse(case["src"], case["std"], case["mode"])
     if o.kind != "tree":
         # an inserted cpp/include line may have landed where it is not valid; not this property's concern
         return Result(True, None, False, labels, precondition_failed=not case.get("extras"))
